@@ -10,12 +10,12 @@ SPEC = {
                  "fopencookie streams, so every short-read plan of a bounded family is replayed against the real helpers under "
                  "ASan/UBSan while the harness compares each result with the bytes it delivered itself",
     "rule": "fd level: read_all(fd) under EVERY plan in {1,2,3,F}^8 (the i-th read returns at most c_i bytes, F = unlimited) for "
-            "payload lengths 0..12 on a regular file (+ {1,2,3,F}^5/^7 on a pre-loaded pipe), every plan in "
+            "payload lengths 0..12 on a regular file (+ {1,2,3,F}^6/^8 on a pre-loaded pipe), every plan in "
             "{1,16383,16384,16385,F}^5/^6 for payload sizes k*16384+d (k=0..3, d=-2..2), seeded random plans for payloads up to "
             "200 KiB; readx/preadx/read/readx<T>: lengths 0..12 x requested sizes 0..len+2 x first limit {1,2,3,5,F} x every "
-            "offset x {file,pipe}. stdio level (fopencookie, 4 buffering modes): read_all(FILE*) under {1,2,3,F}^7/^8 x lengths "
+            "offset x {file,pipe}. stdio level (fopencookie, 4 buffering modes): read_all(FILE*) under {1,2,3,F}^8 x lengths "
             "0..12, block plans, random plans to 200 KiB; freadx/fread: lengths 0..12 x sizes x {1,2,3,F}^4; fgets: last-line "
-            "length 0..1100 x {terminated, unterminated} x 3/8 prefix-line sets x 7 plans (x 4 buffering modes thorough) + random "
+            "length 0..1100 x {terminated, unterminated} x 4/8 prefix-line sets x 7 plans (x 4 buffering modes thorough) + random "
             "multi-line files. Real pipes with a writer thread delivering seeded chunk sizes with injected usleep (schedules vary "
             "with VERIF_SEED) into read_all(fd), read_all/fgets/freadx(fdopen), readx. load_file(save_file(d)) for sizes 0..300, "
             "2^k+-2, random to 200 KiB (+5 short-read plans each: equal or throw); list_directory/list_directory_sorted vs created "
